@@ -430,7 +430,7 @@ impl<'a> G<'a> {
         let mut out = vec![];
         let n = self.r.usize(4);
         for _ in 0..n {
-            match self.r.below(8) {
+            match self.r.below(11) {
                 0 | 1 => {
                     let f = self.fresh("f");
                     let saved_param = self.param.clone();
@@ -501,6 +501,21 @@ impl<'a> G<'a> {
                     self.vars.push(Var { name: g, kind: Kind::FnNil });
                     self.vars.push(Var { name: f, kind: Kind::FnInt });
                 }
+                8 | 9 => {
+                    // nil-parameter function that recurses with a bare `^` after a non-nil step (the
+                    // server-loop idiom): defined, certified, never called on the sync path
+                    self.feat("nilary-tail-after-step");
+                    let f = self.fresh("nl");
+                    let step = self.int(1);
+                    let form = match self.r.below(5) {
+                        0 => format!("{f} = #{{ !#'int, ^ }}"),
+                        1 => format!("{f} = #{{ {step}, ^ }}"),
+                        2 => format!("{f} = #{{ !#'int =sv, [sv, {step}] __integer_add__, ^ }}"),
+                        3 => format!("{f} = #{{ {step} {{ | =0 => 1 | ~ }}, [~, 1] __integer_add__ ^ }}"),
+                        _ => format!("{f} = #{{ {{ !#'int =sm, sm {{ | =0 => Stop | Go }} }} {{ | =Stop => 0 | ^ }} }}"),
+                    };
+                    out.push(form);
+                }
                 _ => {
                     // a captured closure factory
                     self.feat("closure-factory");
@@ -553,7 +568,17 @@ impl<'a> G<'a> {
         self.feat("process");
         let a = self.int(1);
         let k = self.lit();
-        match self.r.below(9) {
+        match self.r.below(11) {
+            9 => vec![
+                // nilary server loop driven by messages
+                "srv = @#{ !#'int, ^ }".into(),
+                format!("{a} srv, {k} srv, 3 srv"),
+            ],
+            10 => vec![
+                // stateful server loop
+                "acc = 0 @#'int { =t, !#'int =m, [t, m] __integer_add__ ^ }".into(),
+                format!("{a} acc, {k} acc"),
+            ],
             5 => vec![
                 // filter function with a body: skips messages until the wanted one
                 format!("me = &., {a} me, {k} me, 42 me"),
